@@ -89,6 +89,15 @@ func insideTree() *vfs.Node {
 	d.Kids["sub"] = vfs.NewDir()
 	t.Kids["d"] = d
 	t.Kids["a b"] = vfs.NewFile("blank")
+	// names that extend a collection's name, and names holding literal percent escapes: hrefs built by string
+	// surgery or written without re-escaping address something else when sent back
+	t.Kids["d.zip"] = vfs.NewFile("zipped")
+	dz := vfs.NewDir()
+	dz.Kids["inner"] = vfs.NewFile("inner")
+	t.Kids["dz"] = dz
+	t.Kids["p%41q"] = vfs.NewFile("percent")
+	t.Kids["%2e%2e"] = vfs.NewFile("dots")
+	t.Kids["q?x#y"] = vfs.NewFile("query")
 	return t
 }
 
